@@ -674,7 +674,10 @@ def foreign_objects(ctx):
                     if not _history(ctx, w, ops, steps, [own, t, top, foreign, deep], what):
                         continue
                     if ns is not None and not w.entered(ns):
-                        ctx.count("foreign_object_namesake_not_started_by_run")     # (a direct reference is keyed by name in run(): the namesake counts as consumed)
+                        # (F26, fixed in /repo 3577bab: a direct reference used to be recorded by name in run(), so the namesake counted as consumed)
+                        ctx.count("foreign_object_namesake_not_started_by_run")
+                        ctx.fail("run() returned without executing the program's own command %r: a command of ANOTHER program (or of none) with the same result name is %s" % (
+                            ns.result_name, what), {"history": ["q = Program(); q.add_command(..., %r, ...)" % ns.result_name, what, "q.run()"], "executed": [getattr(x, "result_name", "?") for k, x in w.m.EVENTS if k == "+"]})
                     n_events = len(w.m.EVENTS)
                     more = [("%s.result" % c.result_name, (lambda c=c: c.result)) for c in [t, top, foreign] + ([ns] if ns is not None else [])] + [("q.run()", q.run)]
                     if _history(ctx, w, ops, more, [own, t, top, foreign, deep] + ([ns] if ns is not None else []), what):
